@@ -5,5 +5,5 @@ export PATH=/opt/veriftools/go1.26.8/bin:$PATH GOFLAGS=-mod=mod GOPROXY=off GOSU
 repo="$1"; pkg="$2"; file="$3"; name="$4"
 ov=$(mktemp /tmp/ov.XXXXXX.json)
 printf '{"Replace": {"%s/%s/zz_verif_replay_test.go": "%s"}}' "$repo" "$pkg" "$(realpath $file)" > "$ov"
-(cd "$repo" && go test -overlay "$ov" -vet=off -v -count=1 -timeout ${VERIF_TEST_TIMEOUT:-600s} -run "^$name\$" "./$pkg" 2>&1); rc=$?
+(cd "$repo" && go test ${VERIF_TAGS:+-tags=$VERIF_TAGS} -overlay "$ov" -vet=off -v -count=1 -timeout ${VERIF_TEST_TIMEOUT:-600s} -run "^$name\$" "./$pkg" 2>&1); rc=$?
 rm -f "$ov"; exit $rc
